@@ -8,7 +8,7 @@ Correspondence: the real binary `imdl torrent create --input ROOT --output -` on
 each built twice in different creation orders, vs the extracted `Walk.walk`; the `sortcmp` and
 `globf` hooks at volume vs `Walk.sort_compare` / `Walk.pattern_filter`.
 Oracle: Python enumerate / filter / sort by the documented rules (this file, independent of the model)."""
-import functools, json, os, random, re, shlex, shutil, tempfile
+import functools, json, os, random, re, shlex, shutil, socket, tempfile
 import lib
 
 MANIFEST = dict(
@@ -54,8 +54,14 @@ def gen_name(r, used):
     return n
 
 
+SPECIAL_OK = [False]   # set per tree by gen_root: may this tree hold entries that are neither files, directories nor links
+
+
 def gen_node(r, depth, allow_broken, in_link=False):
     k = r.random()
+    if SPECIAL_OK[0] and not in_link and r.random() < 0.12:
+        # a FIFO or a unix socket: exists, is not a regular file, must be passed over without being opened
+        return ("S", r.choice(["fifo", "fifo", "sock"]))
     if depth <= 0 or k < 0.45:
         return ("F", r.choice(SIZES))
     if k < 0.80:
@@ -82,6 +88,7 @@ def gen_dir(r, depth, allow_broken, lo=0, hi=5):
 
 def gen_root(r):
     allow_broken = r.random() < 0.10
+    SPECIAL_OK[0] = r.random() < 0.15
     k = r.random()
     d = gen_dir(r, r.choice([1, 2, 3, 3, 4]), allow_broken, lo=1, hi=6)
     if k < 0.80:
@@ -104,7 +111,8 @@ def enc_tree(t):
         return "B"
     if t[0] == "L":
         return "L" + enc_tree(t[1])
-    return "D(" + ";".join("%s:%s" % (n.encode().hex(), enc_tree(c)) for n, c in t[1]) + ")"
+    # special files are not content: for the model (whose tree type has files, directories and links) they are not there
+    return "D(" + ";".join("%s:%s" % (n.encode().hex(), enc_tree(c)) for n, c in t[1] if c[0] != "S") + ")"
 
 
 def materialise(t, top, root_name, order_rng):
@@ -130,6 +138,14 @@ def materialise(t, top, root_name, order_rng):
             order_rng.shuffle(es)
             for n, c in es:
                 go(c, os.path.join(p, n))
+        elif node[0] == "S":
+            if node[1] == "sock" and len(p) < 100:
+                sk = socket.socket(socket.AF_UNIX, socket.SOCK_STREAM)
+                sk.bind(p); sk.close()
+                cmds.append("python3 -c 'import socket,sys; socket.socket(socket.AF_UNIX).bind(sys.argv[1])' %s" % shlex.quote(rel(p)))
+            else:
+                os.mkfifo(p)
+                cmds.append("mkfifo %s" % shlex.quote(rel(p)))
         elif node[0] == "L":
             if node[2] is not None:
                 os.symlink(node[2], p)
@@ -277,6 +293,16 @@ def strip_links(t):
     return t
 
 
+def has_special(t):
+    if t[0] == "S":
+        return True
+    if t[0] == "L":
+        return has_special(t[1])
+    if t[0] == "D":
+        return any(has_special(c) for _, c in t[1])
+    return False
+
+
 def has_dangling(t):
     if t[0] == "B":
         return True
@@ -400,7 +426,7 @@ def run_impl(ctx, case, builds=2):
         try:
             cmds = materialise(case["tree"], top, case["root_name"], random.Random(case["order_seed"] * 7 + b))
             argv = case_argv(case, case["root_name"])
-            rc, out, err = ctx.imdl(argv, cwd=top, timeout=120)
+            rc, out, err = ctx.imdl(argv, cwd=top, timeout=6 if has_special(case["tree"]) else 120)
             outs.append(impl_canon(rc, out))
             if b == 0:
                 script = ("T=$(mktemp -d) && cd \"$T\" && " + " && ".join(cmds) + " && " +
@@ -434,6 +460,8 @@ def readable(t):
         return "file(%d)" % t[1]
     if t[0] == "B":
         return "dangling-link"
+    if t[0] == "S":
+        return t[1]
     if t[0] == "L":
         return {"link->" + ("sibling " + t[2] if t[2] else ""): readable(t[1])}
     return {n: readable(c) for n, c in t[1]}
@@ -582,6 +610,8 @@ def e2e(ctx, glob_ok):
             ctx.count("globs_%d" % len(c["globs"]))
             ctx.count("sort_keys_%d" % len(c["specs"]))
             ctx.count("root_" + {"D": "dir", "F": "file", "L": "symlink", "B": "dangling"}[c["tree"][0]])
+            if has_special(c["tree"]):
+                ctx.count("trees_with_fifo_or_socket")
             ctx.count("outcome_" + a.split(" ")[0])
             if a.startswith("LIST"):
                 n = 0 if a == "LIST ~" else a.count(",") + 1
